@@ -38,14 +38,16 @@ func (e *InjectedErr) Error() string { return fmt.Sprintf("injected fault #%d", 
 
 // SimReader is the io.Reader handed to the library.
 type SimReader struct {
-	Data   []byte
-	Ops    []ReadOp
-	pos    int
-	op     int
-	sticky error
-	nerr   int
-	ctx    *core.Ctx
-	Benign bool // ignore the remaining ops: plain full reads
+	Data      []byte
+	Ops       []ReadOp
+	pos       int
+	op        int
+	sticky    error
+	nerr      int
+	ctx       *core.Ctx
+	stallLeft int
+	Stalled   bool // a "stall" outcome has begun
+	Benign    bool // ignore the remaining ops: plain full reads
 	// DefaultKind is the outcome used once Ops is exhausted ("" = full).
 	DefaultKind string
 	// bookkeeping for oracles
@@ -75,6 +77,10 @@ func (r *SimReader) read(p []byte) (int, error) {
 	r.Calls++
 	if r.sticky != nil && !r.Benign {
 		return 0, r.sticky
+	}
+	if r.stallLeft > 0 && !r.Benign {
+		r.stallLeft--
+		return 0, nil
 	}
 	rem := len(r.Data) - r.pos
 	op := ReadOp{Kind: "full"}
@@ -118,6 +124,16 @@ func (r *SimReader) read(p []byte) (int, error) {
 		}
 		r.fault("read_one_byte")
 		return give(1), nil
+	case "stall":
+		// the source delivers nothing for 100 calls in a row (bufio gives up with
+		// io.ErrNoProgress at exactly that point), then carries on as if nothing had happened
+		if rem == 0 {
+			return 0, io.EOF
+		}
+		r.stallLeft = 99
+		r.Stalled = true
+		r.fault("read_stall_100")
+		return 0, nil
 	case "stutter":
 		// an empty read before every single byte: progress all the time, never two empty
 		// reads in a row, hundreds of them per packet
